@@ -38,6 +38,8 @@ GHeaderKinds ==
 GroupKinds ==
   [ Id |-> "bytes", PubKey |-> "bytes", Signature |-> "bytes", Members |-> "blist", GroupHeight |-> "u64" ]
 
+MemberKinds == [ Id |-> "bytes", PubKey |-> "bytes" ]
+
 (* fields whose exact representation enters the identifying hash
    (Transaction.GenHash, BlockHeader.GenHash over the JSON form, GroupHeader.GenHash) *)
 TxHashed == {"Data", "Nonce", "Source", "Target", "Type", "Time", "ExtraData", "ChainId"}
@@ -82,6 +84,28 @@ ContentC(fk, c) ==
     [] fk = "blist" /\ c = "empty" -> "nil"
     [] fk \in {"local", "derived"} -> "not-wire-content"
     [] OTHER -> c
+
+(* ------------------------------------------------------------ cardinality *)
+(* Repeated fields and the limits the node itself enforces when it builds messages: a block packs
+   at most txCountPerBlock transactions (service/transaction_pool.go), so its body list, the hash
+   list of its header and the evicted list can reach that size; a group has GROUP_MIN_MEMBERS to
+   GROUP_MAX_MEMBERS members (consensus/model/param.go).  The codec has no limit of its own: a
+   message with n elements parses to n elements for every n the node can produce, and one more. *)
+TxCountPerBlock == 200
+GroupMinMembers == 5
+GroupMaxMembers == 10
+CardPoints(limit) == {0, 1, 2, limit - 1, limit, limit + 1}
+NormCard(n) == n                       \* one pass keeps the number of elements
+ParseCard(n) == "object"               \* and no count is a reason to refuse a well-formed message
+
+(* ------------------------------------------------- retention / interleaving *)
+(* The bytes Marshal* returns belong to the caller: what is parsed from them later does not depend
+   on codec calls made in between, on the same or on another goroutine.  x, y: two values;
+   Retained: the value the kept bytes of x stand for after y was serialised in between. *)
+Interleavings == {"none", "same-goroutine", "other-goroutine"}
+Retained(x, y, inter) == x
+(* negative control, never the oracle: an encoder that hands out a shared buffer *)
+AliasedRetained(x, y, inter) == IF inter = "none" THEN x ELSE y
 
 (* ------------------------------------------------------- presence rules *)
 TxNums == 1..15
